@@ -338,6 +338,10 @@ func infeasible(rs relSet) bool {
 			if a != b && isLiteralKey(a) && isLiteralKey(b) {
 				return true
 			}
+			// constructors that never return nil
+			if a == "nil" && neverNilKey(b) || b == "nil" && neverNilKey(a) {
+				return true
+			}
 		}
 		if i := topLevelIndex(k, " < "); i >= 0 {
 			a, b := k[:i], k[i+3:]
@@ -408,3 +412,13 @@ func (p *Prog) region(roots []*ssa.Function) []*ssa.Function {
 }
 
 var _ = strings.Join
+
+// neverNilKey: the key of a value that is never nil (error constructors of the standard library).
+func neverNilKey(k string) bool {
+	i := strings.IndexByte(k, '(')
+	if i < 0 {
+		return false
+	}
+	n := k[:i]
+	return n == "errors.New" || strings.HasSuffix(n, "/errors.New") || n == "fmt.Errorf" || strings.HasSuffix(n, "/errors.Errorf")
+}
